@@ -104,6 +104,9 @@ class VecInterp(Interp):
     # ------------------------------------------------------------ values
     def operand(self, o):
         if o["k"] == "const" and "tyconst" in o:
+            m = re.fullmatch(r"(-?\d+)(_\w+)?", str(o["tyconst"]))
+            if m:
+                return int(m.group(1))
             if o["tyconst"] not in self.cparams:
                 raise Undecidable("const generic %s is not bound" % o["tyconst"])
             return self.cparams[o["tyconst"]]
